@@ -49,11 +49,15 @@ def check(ctx):
                            f"field `{gname}` holds handles into allocator field `{f['name']}`; Rust drops fields in declaration order, so `{gname}` must be declared before `{f['name']}` (else teardown with buffered events frees them through a dropped pool)")
     ctx.floor("R05.1", 2)
     # ------------------------------------------------------------------ R05.2 / R05.3 / R05.4: shared with C14 / C13
-    for (mod, rules, prefix) in (("props.C14", ("R14.2", "R14.5"), {"R14.2": "R05.2", "R14.5": "R05.3"}), ("props.C13", ("R13.1", "R13.3"), {"R13.1": "R05.4", "R13.3": "R05.8"})):
+    # (R14.1: every count mutation is one atomic read-modify-write that ADDS / SUBTRACTS -- a `store(1 + n)` forgets the handles that already exist and the payload is
+    #  destroyed while they are still held; R13.2: `dealloc_ref` releases through `dealloc_id`, the only place that runs the destructor)
+    for (mod, rules, prefix) in (("props.C14", ("R14.1", "R14.2", "R14.5"), {"R14.1": "R05.2", "R14.2": "R05.2", "R14.5": "R05.3"}),
+                                 ("props.C13", ("R13.1", "R13.2", "R13.3"), {"R13.1": "R05.4", "R13.2": "R05.4", "R13.3": "R05.8"})):
         m = importlib.import_module(mod)
         sub = type(ctx)(ctx.pid, fx, ctx.tier, ctx.config)
         m.check(sub)
         for o in sub.obs:
+            if o["rule"] == "R13.2" and "dealloc_ref" not in o["key"]: continue
             if o["rule"] in rules and ("dealloc_id" in o["key"] or o["rule"] != "R13.1"):
                 r = prefix[o["rule"]]
                 ctx.ob(r, o["key"].split("|", 1)[1], o["ok"], o["site"], o["detail"], o["nontrivial"])
